@@ -28,6 +28,10 @@ def configs(tier):
 
 
 def run(tier, workers=None):
+    def seeds(cfg):
+        # start from states with an etag history too (A -> B, so that a transition back to A is one step away)
+        return [[("put", "cal", "a.ics", "X"), ("put", "cal", "a.ics", "X2")], [("put", "cal", "a.ics", "X"), ("delete", "cal", "a.ics")]]
+
     def depth_of(cfg):
         return (2, None) if tier == "quick" else (4, 3000)
 
@@ -39,6 +43,6 @@ def run(tier, workers=None):
         "histories": [[("put", "cal", "a.ics", "X")], [("put", "cal", "a.ics", "X"), ("put", "cal", "a.ics", "X2")]],
         "ops": [("put", "cal", "a.ics", "X2"), ("put", "cal", "a.ics", "Z"), ("delete", "cal", "a.ics")],
     }
-    return e1common.run_configs("C02", tier, configs(tier), depth_of, workers=workers, assumptions=ASSUME + [
+    return e1common.run_configs("C02", tier, configs(tier), depth_of, workers=workers, seeds=seeds, assumptions=ASSUME + [
         "fault phase: every single placement of an ENOSPC failure on a mutating file-system call of a replace / delete; afterwards all views must still agree and ETag <-> bytes must still be a bijection",
     ], post=post, faults=faults)
